@@ -77,10 +77,12 @@ def make_scratch(dest, models, harness_cfg="kani", copy_harness=False):
             hashes[os.path.relpath(p, dest)] = sha256_file(p)
     hashes["Cargo.toml"] = sha256_file(os.path.join(dest, "Cargo.toml"))
 
-    hdir = os.path.join(VERIF, "harness")
-    if copy_harness:
-        shutil.copytree(hdir, os.path.join(dest, "verif_harness"))
-        hdir = os.path.join(dest, "verif_harness")
+    # snapshot harness modules and model crates into the scratch dir so that a running check is not
+    # disturbed by later edits under /verif
+    hdir = os.path.join(dest, "verif_harness")
+    shutil.copytree(os.path.join(VERIF, "harness"), hdir)
+    mdir = os.path.join(dest, "verif_models")
+    shutil.copytree(os.path.join(VERIF, "models"), mdir)
     for hfile, src in INJECT.items():
         hp = os.path.join(hdir, hfile)
         sp = os.path.join(dest, src)
@@ -89,7 +91,7 @@ def make_scratch(dest, models, harness_cfg="kani", copy_harness=False):
         if not os.path.exists(sp):
             raise SystemExit(f"verif: anchored source file {src} is missing from {REPO}")
         with open(sp, "a") as f:
-            f.write(f'\n#[cfg({harness_cfg})]\n#[path = "{hp}"]\nmod verif_kani;\n')
+            f.write(f'\n#[cfg({harness_cfg})]\n#[path = "{hp}"]\npub(crate) mod verif_kani;\n')
     # shared helpers, visible as crate::verif_common
     cp = os.path.join(hdir, "common.rs")
     if os.path.exists(cp):
@@ -100,12 +102,12 @@ def make_scratch(dest, models, harness_cfg="kani", copy_harness=False):
         f.write("\n# ---- appended by /verif/tools/scratch.py (scratch copy only) ----\n")
         f.write("[workspace]\n\n")
         f.write("[target.'cfg(kani)'.dependencies]\n")
-        f.write(f'verif_support = {{ path = "{VERIF}/models/verif_support" }}\n\n')
+        f.write(f'verif_support = {{ path = "{mdir}/verif_support" }}\n\n')
         f.write("[lints.rust]\nunexpected_cfgs = { level = \"allow\" }\n\n")
         if models:
             f.write("[patch.crates-io]\n")
             for m in models:
-                f.write(f'{m} = {{ path = "{VERIF}/models/{m}" }}\n')
+                f.write(f'{m} = {{ path = "{mdir}/{m}" }}\n')
     return hashes
 
 
